@@ -78,8 +78,9 @@ def gen_case(rnd, B):
                 "tag": "edge:%s:-%s" % (rep, unit), "nt": True}
     if kind == "date":
         rep = rnd.choice(list(REP))
-        # a business-day date has no value on weekends: bizda progressions step in business days only
-        unit = "b" if rep == "bizda" else rnd.choice(("d", "d", "w"))
+        # a business-day date has no value on weekends: bizda progressions step in business days only;
+        # the other calendars step in business days as well now and then (from a Mon-Fri start)
+        unit = "b" if rep == "bizda" else rnd.choice(("d", "d", "w", "b"))
         if rep == "ymcw":
             unit = "w"       # a ymcw progression keeps the weekday
         k = rnd.randrange(1, 12) if unit != "d" else rnd.choice((1, 1, 2, 3, 7, 10, 30, 45, 100, 365))
@@ -142,6 +143,8 @@ def gen_case(rnd, B):
         skipargs, skips = _skipargs(rnd) if rnd.random() < 0.5 else ([], set())
         cfl = rnd.random() < 0.25
         first_n = R.n_of(y, m, d)
+        # a third of the cases as date-times: the same progression with a constant time of day
+        tod = ("T" + R.hms(rnd.choice((0, 36000, 86399, rnd.randrange(86400))))) if rnd.random() < 0.33 else ""
         if cfl:
             # anchored at LAST: LAST minus j increments, each taken in one step from LAST
             if R.wday(last_n) in skips:
@@ -157,11 +160,11 @@ def gen_case(rnd, B):
                     break
                 seq.append(e)
             seq.reverse()
-        exp = ["%04d-%02d-%02d" % e for e in seq if R.wday(R.n_of(*e)) not in skips]
+        exp = ["%04d-%02d-%02d" % e + tod for e in seq if R.wday(R.n_of(*e)) not in skips]
         inc = "%s%d%s" % ("-" if sign < 0 else "", k, unit)
-        argv = skipargs + (["--compute-from-last"] if cfl else []) + ["--", "%04d-%02d-%02d" % (y, m, d), inc, R.f_ymd(last_n)]
-        return {"argv": argv, "exp": exp, "tag": "month:%s%s%s%s%s" % ("-" if sign < 0 else "+", unit, ":eom" if d >= 29 else "",
-                                                                    ":skip" if skips else "", ":cfl" if cfl else ""),
+        argv = skipargs + (["--compute-from-last"] if cfl else []) + ["--", "%04d-%02d-%02d" % (y, m, d) + tod, inc, R.f_ymd(last_n) + tod]
+        return {"argv": argv, "exp": exp, "tag": "month:%s%s%s%s%s%s" % ("-" if sign < 0 else "+", unit, ":eom" if d >= 29 else "",
+                                                                      ":skip" if skips else "", ":cfl" if cfl else "", ":dt" if tod else ""),
                 "nt": len(exp) >= 3 or slack != 0}
     if kind == "time":
         unit, mul = rnd.choice((("h", 3600), ("m", 60), ("s", 1)))
